@@ -261,6 +261,11 @@ class LoopParser(SubParser):
         # increment = 360 / counter, or
         # increment = 65536 / counter, based on unit_mode register
         code_gen.add_instruction(OpCode.MOVE, LoopVar.FIRST, self._index_var)
+        # With nothing to iterate over, there is no increment to calculate.
+        code_gen.test_op(Operator.EQ, LoopVar.COUNTER, 0)
+        empty_marker = code_gen.if_true_start()
+        code_gen.add_instruction(OpCode.MOVEQ, 0, LoopVar.INCR)
+        code_gen.if_else(empty_marker)
         code_gen.test_op(Operator.EQ, Register.UNIT_MODE, UnitMode.RAW)
         marker = code_gen.if_true_start()
         code_gen.push(65536)
@@ -270,6 +275,7 @@ class LoopParser(SubParser):
         code_gen.push(LoopVar.COUNTER)
         code_gen.add_instruction(OpCode.OP, Operator.DIV)
         code_gen.add_instruction(OpCode.POP, LoopVar.INCR)
+        code_gen.if_end(empty_marker)
         return True
 
     def _loop_test(self, code_gen) -> bool:
